@@ -93,6 +93,22 @@ theorem den_sSquared (sites m x : Nat) :
   unfold sSquared
   rw [den_iadd0, den_mulOpF_sumF, den_mulOpF_sumF]
 
+/-- a loop `acc += mk t_i c_i` from the empty operator denotes the listed sum of terms -/
+theorem den_fold_mk1_list (l : List Nat) (T : Nat → Term) (C : Nat → GQ) (m x : Nat) :
+    den .fermion (l.foldl (fun acc i => Model.iadd 0 acc (mk .fermion (T i) (C i))) []) [m] [x] =
+      den .fermion (l.map fun i => (T i, C i)) [m] [x] := by
+  rw [den_fold_mk1, den_nil, OFV.Sem.den_eq_sum, List.map_map, zero_add]
+  rfl
+
 theorem melF_den (A : Op) (t s : Nat) : melF A t s = den .fermion A [s] [t] := OFV.C19P.melF_eq_den A s t
+
+/-- `s_plus_operator(n) = Σ_i a†_{up i} a_{down i}` and `s_minus_operator(n) = Σ_i a†_{down i} a_{up i}` in the Spec -/
+theorem ladder_formulas (sites t s : Nat) :
+    melF (sPlus 0 sites) t s =
+      melF ((List.range sites).map fun i => ([(upIndex i, 1), (downIndex i, 0)], (1 : GQ))) t s ∧
+    melF (sMinus 0 sites) t s =
+      melF ((List.range sites).map fun i => ([(downIndex i, 1), (upIndex i, 0)], (1 : GQ))) t s := by
+  simp only [melF_den]
+  exact ⟨den_fold_mk1_list _ _ _ s t, den_fold_mk1_list _ _ _ s t⟩
 
 end OFV.C10
